@@ -925,7 +925,15 @@ def run_programs(chk, tier):
             if differing == []:
                 continue
             sig = None
-            if differing is not None and mode == "recvcopy":
+            if differing is None and mode in PROG_SIG and js[1].startswith("jserror:TypeError") and "is not a function" in js[1]:
+                # an assertion that wrongly succeeded: the call of the missing method crashes. The line being printed must
+                # belong to a type that contains the injected construct.
+                k = 0
+                while k < len(js[0]) and k < len(nat[0]) and js[0][k] == nat[0][k]:
+                    k += 1
+                if k == len(js[0]) and k < len(nat[0]) and nat[0][k].split(" ")[0] in tainted:
+                    sig = PROG_SIG[mode]
+            elif differing is not None and mode == "recvcopy":
                 sig = SIG_RECV
             elif differing is not None and mode in PROG_SIG and all(a.split(" ")[0] in tainted for a, b in differing):
                 sig = PROG_SIG[mode]
